@@ -841,3 +841,56 @@ fn c09_locate_parent_of_inflight_perspective() {
     assert!(found.is_some(), "C09: a command already received in this transaction cannot be located (it would be ingested twice)");
     core::mem::forget(trx);
 }
+
+/// C08 kernel: the concurrent-commit stamp is captured when the transaction FIRST reads the heads
+/// and is never refreshed by later add_commands calls (empty batches: no graph search involved).
+/// A commit by somebody else before the first read does not count, one after it makes the stamp
+/// stale for good.
+#[kani::proof]
+#[kani::unwind(6)]
+fn c08_stamp_captured_once() {
+    let (g, a) = (10u8, 11u8);
+    let before: bool = kani::any();
+    let between: bool = kani::any();
+    let y0: u64 = kani::any();
+    kani::assume(y0 < u64::MAX - 4);
+    let mut store = AStore::with_chain(&[g, a]);
+    store.offset = y0;
+    let mut prov = AProvider::with(store, g);
+    let mut ps = policies(None);
+    let mut sink = ASink::new();
+    let mut bufs: RuntimeBuffers<ASeg> = RuntimeBuffers::new();
+    let mut trx: Trx = Transaction::new(gid(g));
+    if before {
+        prov.store.offset += 1;
+    }
+    let first = prov.store.offset;
+    // A one-command batch whose command is already in the in-flight perspective: add_commands
+    // skips it without any graph search.  (An EMPTY batch does not work: CBMC cannot fold the
+    // emptiness test of a zero-length slice iterator and walks the loop body with garbage.)
+    let mut p = APersp::new(Prior::Single(addr(a, 1)), Prior::Single(loc(0, 1)), 2);
+    p.cmds[0] = 50;
+    p.ncmd = 1;
+    trx.perspective = Some(p);
+    trx.phead = Some(cid(50));
+    let none = [ACmd { id: 50, parent: Prior::Single(addr(a, 1)), has_policy: false, merge: false }];
+    let r1 = trx.add_commands(&none, &mut prov, &mut ps, &mut sink, &mut bufs, &MemSpill::new);
+    assert!(matches!(r1, Ok(0)));
+    assert!(trx.original_heads_offset == Some(HeadSetOffset::new(first)));
+    // the transaction starts from the committed heads
+    assert!(trx.heads.len() == 1 && trx.heads.get(&cid(a)) == Some(&loc(0, 1)));
+    if between {
+        prov.store.offset += 1; // somebody else committed
+    }
+    let r2 = trx.add_commands(&none, &mut prov, &mut ps, &mut sink, &mut bufs, &MemSpill::new);
+    assert!(matches!(r2, Ok(0)));
+    // still the stamp of the FIRST read: commit() will (rightly) see it as stale iff `between`
+    assert!(trx.original_heads_offset == Some(HeadSetOffset::new(first)));
+    assert!((HeadSetOffset::new(prov.store.offset) != HeadSetOffset::new(first)) == between);
+    kani::cover!(before & !between, "commit before the first read is not counted");
+    kani::cover!(between, "intervening commit leaves the stamp stale");
+    core::mem::forget(r1);
+    core::mem::forget(r2);
+    core::mem::forget(trx);
+    core::mem::forget(bufs);
+}
